@@ -163,11 +163,13 @@ fn run_gen(a: &[Sx]) -> String {
     let seed = a[4].head().unwrap().1[0].nat().unwrap();
     let problem = tsp_of(n, &d);
     let mut state = base_state(&problem, n, &pm, seed);
+    // leftovers of an earlier pass: generation must REPLACE the current population, at the same height
+    *state.populations_mut().current_mut() = vec![Individual::new_unevaluated(vec![0]), Individual::new_unevaluated(vec![0])];
     let gen = AcoGeneration::new::<P>(ants, alpha, beta, 1.0);
     match catch(|| gen.execute(&problem, &mut state)) {
         Some(Ok(())) => {
             let ts = current_tours(&state);
-            list(["ok".to_string(), tours_s(&ts), witness(n, &ts)])
+            list(["ok".to_string(), tours_s(&ts), witness(n, &ts), format!("(depth {})", state.populations().len())])
         }
         Some(Err(_)) => "err".into(),
         None => "panic".into(),
@@ -235,7 +237,7 @@ fn run_step(a: &[Sx]) -> String {
 // ---------------------------------------------------------------- template runs
 /// The parameters of the template's two ACO components, read from the built configuration.
 #[derive(Clone, Default)]
-struct Params { ants: usize, alpha: f64, beta: f64, kind: String }
+struct Params { ants: usize, alpha: f64, beta: f64, default: f64, kind: String }
 struct ReadParams;
 fn find<'a>(v: &'a serde_json::Value, key: &str) -> Option<&'a serde_json::Value> {
     match v {
@@ -256,7 +258,7 @@ impl ConfigUser for ReadParams {
             Some(_) => format!("(mmas {} {} {})", fx(f("evaporation")), fx(f("max_pheromones")), fx(f("min_pheromones"))),
             None => format!("(as {} {})", fx(f("evaporation")), fx(f("decay_coefficient"))),
         };
-        Params { ants: find(&v, "num_ants").and_then(|x| x.as_u64()).unwrap_or(u64::MAX) as usize, alpha: f("alpha"), beta: f("beta"), kind }
+        Params { ants: find(&v, "num_ants").and_then(|x| x.as_u64()).unwrap_or(u64::MAX) as usize, alpha: f("alpha"), beta: f("beta"), default: f("default_pheromones"), kind }
     }
 }
 
@@ -268,6 +270,8 @@ struct RunVisitor {
     upds: u32,
     bad: Vec<(u32, &'static str)>,
     before: Vec<f64>,
+    after: Option<Vec<f64>>,
+    depth: usize,
     tours: Vec<Vec<usize>>,
     lines: Vec<(u32, String)>,
 }
@@ -284,13 +288,24 @@ fn pm_of<Q: HProblem>(state: &State<Q>, n: usize) -> Vec<f64> {
 }
 impl Visitor for RunVisitor {
     fn step<Q: HProblem>(&mut self, phase: Phase, name: &'static str, _index: usize, state: &State<Q>, problem: &Q) {
-        if phase != Phase::After { return; }
+        if phase != Phase::After {
+            if name.ends_with("::AcoGeneration") { self.depth = state.populations().len(); }
+            return;
+        }
         let Some(tsp) = (problem as &dyn Any).downcast_ref::<Tsp>() else { return };
         let n = tsp.dist.len();
         if name.ends_with("::AcoGeneration") {
             let k = self.gens;
             self.gens += 1;
             self.before = pm_of(state, n);
+            // the state generation works on: what `init` inserted (first pass), what the last update left (later)
+            let bits = |v: &[f64]| v.iter().map(|x| x.to_bits()).collect::<Vec<_>>();
+            match &self.after {
+                None => if bits(&self.before) != bits(&vec![self.params.default; n * n]) { self.flag(k, "init"); },
+                Some(a) => if bits(&self.before) != bits(a) { self.flag(k, "discontinuity"); },
+            }
+            // the routes replace the current population
+            if state.populations().len() != self.depth { self.flag(k, "stack"); }
             self.tours = state.populations().current().iter().map(|i| {
                 Sx::parse(&Q::enc(i.solution())).unwrap().items().unwrap().iter().map(|c| c.nat().unwrap() as usize).collect()
             }).collect();
@@ -310,6 +325,7 @@ impl Visitor for RunVisitor {
             if let Some((lo, hi)) = self.bounds {
                 if after.iter().any(|x| !(*x >= lo * (1.0 - 1e-15) && *x <= hi * (1.0 + 1e-15))) { self.flag(k, "bounds"); }
             }
+            self.after = Some(after.clone());
             if (self.emit)(k) {
                 let objs = tagged("objs", state.populations().current().iter().map(|i| fx(problem.raw_f(i.solution()))));
                 let cached: Vec<f64> = state.populations().current().iter().map(|i| i.objective().value()).collect();
@@ -338,7 +354,7 @@ fn template_run(name: &str, variant: u32, instance: u32, iters: u32, seed: u64, 
         Ok(p) => p,
         Err(_) => return ("(ctor-err (gens 0) (upds 0) (bad))".into(), vec![]),
     };
-    let v = RunVisitor { bounds: kind_bounds(&params.kind), params, emit, gens: 0, upds: 0, bad: vec![], before: vec![], tours: vec![], lines: vec![] };
+    let v = RunVisitor { bounds: kind_bounds(&params.kind), params, emit, gens: 0, upds: 0, bad: vec![], before: vec![], after: None, depth: 0, tours: vec![], lines: vec![] };
     match run_template(name, variant, instance, iters, seed, EvalKind::Sequential, v) {
         Ok((v, outcome)) => {
             let bad = tagged("bad", v.bad.iter().map(|(k, c)| format!("({k} {c})")));
@@ -386,8 +402,17 @@ impl Gen {
     fn logu(&mut self, lo: f64, hi: f64) -> f64 {
         (lo.ln() + self.rng.unit() * (hi.ln() - lo.ln())).exp()
     }
+    /// Instance size: mostly 3..8 cities, the boundary sizes 1 and 2, and some larger ones.
+    fn size(&mut self) -> usize {
+        match self.rng.below(20) {
+            0 => 1,
+            1 => 2,
+            2 => self.rng.range(9, 12) as usize,
+            _ => self.rng.range(3, 8) as usize,
+        }
+    }
     fn dist(&mut self, n: usize, malformed: bool) -> Vec<f64> {
-        let mode = self.rng.below(4);
+        let mode = self.rng.below(5);
         let mut d = vec![0.0; n * n];
         let asym = self.rng.chance(1, 6);
         for i in 0..n {
@@ -396,6 +421,8 @@ impl Gen {
                 let v = match mode {
                     0 => 1.0 + self.rng.unit() * 9.0,
                     1 | 2 => self.logu(1e-6, 1e6),
+                    // astronomically unequal: `(1/d)^beta` underflows to 0 for some pairs (weight = 1e-15)
+                    4 => if self.rng.chance(1, 2) { self.logu(1e60, 1e299) } else { self.logu(1e-6, 1e6) },
                     _ => if (i < n / 2) == (j < n / 2) { self.logu(1e-6, 1e-5) } else { self.logu(1e5, 1e6) },
                 };
                 d[i * n + j] = v;
@@ -404,7 +431,7 @@ impl Gen {
         }
         if malformed {
             // a zero, negative, infinite or NaN distance somewhere off the diagonal
-            for _ in 0..self.rng.range(1, 3) {
+            for _ in 0..(if n == 0 { 0 } else { self.rng.range(1, 3) }) {
                 let (i, j) = (self.rng.below(n as u64) as usize, self.rng.below(n as u64) as usize);
                 if i != j {
                     let v = *self.rng.pick(&[0.0, 0.0, -1.0, f64::INFINITY, f64::NAN]);
@@ -435,7 +462,7 @@ impl Gen {
                 if sym { m[j * n + i] = v; }
             }
         }
-        if malformed {
+        if malformed && n > 0 {
             for _ in 0..self.rng.range(1, 3) {
                 let k = self.rng.below((n * n) as u64) as usize;
                 m[k] = *self.rng.pick(&[-1.0, f64::NAN, f64::INFINITY, -0.0, 1e300]);
@@ -484,7 +511,13 @@ impl Gen {
                 2 => { route.rotate_left(self.rng.below(n as u64) as usize); }
                 _ => {}
             }
-            let mut obj = if self.rng.chance(1, 4) { shared } else { self.logu(1e-6, 1e7) };
+            // tour lengths: ordinary, shared (ties), astronomically long, +inf (a legal objective value: no deposit)
+            let mut obj = match self.rng.below(16) {
+                0..=3 => shared,
+                4 => self.logu(1e60, 1e300),
+                5 => f64::INFINITY,
+                _ => self.logu(1e-6, 1e7),
+            };
             let mut obj_s = fx(obj);
             if i == bad_at {
                 match self.rng.below(4) {
@@ -531,7 +564,8 @@ fn main() {
     let n_gen = if a.thorough { 30000 } else { 3000 };
     for c in 0..n_gen {
         let malformed = c % 12 == 11;
-        let n = g.rng.range(3, 8) as usize;
+        // no city at all: outside the property (route `[0]` names a city that does not exist), agreement only
+        let n = if malformed && c % 96 == 95 { 0 } else { g.size() };
         let (mal_d, mal_p) = if malformed { let x = g.rng.chance(1, 2); (x, !x) } else { (false, false) };
         let input = list(["gen".to_string(), mat_s("pm", n, g.pm(n, mal_p)), mat_s("dist", n, g.dist(n, mal_d)),
             format!("(par {} {})", fx(g.expo()), fx(g.expo())), format!("(ants {})", g.rng.range(0, 8)), format!("(seed {})", g.rng.below(1 << 32))]);
@@ -542,7 +576,7 @@ fn main() {
     for c in 0..n_upd {
         let malformed = c % 10 == 9;
         let mmas = c % 4 >= 2;
-        let n = g.rng.range(3, 8) as usize;
+        let n = g.size();
         let ants = g.rng.range(0, 8) as usize;
         let mal_kind = malformed && g.rng.chance(1, 3);
         let mal_pm = malformed && !mal_kind && g.rng.chance(1, 3);
@@ -557,7 +591,7 @@ fn main() {
     for c in 0..n_chain {
         let mmas = c % 2 == 1;
         let malformed = c % 15 == 14;
-        let n = g.rng.range(3, 8) as usize;
+        let n = g.size();
         let d = g.dist(n, malformed);
         let kind = g.kind(mmas, false);
         let (alpha, beta) = (g.expo(), g.expo());
